@@ -65,7 +65,7 @@ JudgeReduce(ev) ==
              \* named deviations (documented defect classes); anything else is a plain rejection
              tag == CASE x.fn = "none_of" /\ r = <<B2I(AnyOf(BoolArg(x)))>> -> "none_is_any"            \* D4: none_of computes any_of
                       [] x.fn \in {"min", "max"} /\ Len(r) = 1 /\ ~IsElementOf(r[1], X) -> "not_an_element"   \* D3 class: an identity element leaked
-                      [] x.fn \in {"isequal", "isorthogonal"} /\ x.T \in {"i32", "i64"} /\ exp = <<1>> /\ r = <<0>> -> "int_tolerance"
+                      \* D20: determinant<QR> = product(diag R) of a Gram-Schmidt R with positive diagonal = |det|
                       [] tol /\ x.strat = "qr" /\ exp[1] < 0 /\ delta >= 1 /\ DetWithin(out.q, 0 - exp[1], x.ls, x.T, n, rho, delta) -> "qr_abs"
                       [] OTHER -> ""
          IN IF ok THEN TRUE
